@@ -316,12 +316,15 @@ def check(model, rep):
                 ok = FactDomain.has(facts, False, '%s is None' % nm)
                 found[src(call)] = (found.get(src(call), (True,))[0] and ok, call.lineno)
             return user
-    Flow(G()).run(eo.body(), {((frozenset(), None), frozenset())})
+    from ..engine import peval as _pe0
+    eo_flat = _pe0.flatten({}, eo.node, depth=0)           # conditional expressions with calls lowered to if / else
+    eo_body = [s_ for s_ in eo_flat.body if not (isinstance(s_, ast.Expr) and isinstance(s_.value, ast.Constant))]
+    Flow(G()).run(eo_body, {((frozenset(), None), frozenset())})
     for k, (ok, line) in sorted(found.items()):
         rep.ob('R13.1', eo, k, ok, 'attribute may be absent (None) when .split() is called', line=line)
     rep.floor('R13.1', 'optional origin attributes', len(found), 2)
     # both defaults are three zeros
-    zeros = [n for n in walk_own(eo.node) if isinstance(n, ast.Assign) and isinstance(n.value, ast.List)]
+    zeros = [n for n in walk_own(eo_flat) if isinstance(n, ast.Assign) and isinstance(n.value, ast.List)]
     rep.ob('R13.1', eo, 'missing xyz / rpy default to [0, 0, 0]', len(zeros) == 2 and all(src(z.value).replace(' ', '') == '[0,0,0]' for z in zeros),
            'defaults are %s' % [src(z.value) for z in zeros])
     # link-side use under mass guard
@@ -347,15 +350,26 @@ def check(model, rep):
     rep.rule('R13.2', 'joint origin = T(xyz) @ Rz(rpy[2]) @ Ry(rpy[1]) @ Rx(rpy[0])')
     # the <origin> / <limit> branches of the child loop, by structure: `for CH in <parent>: if CH.tag == '<tag>': ...`
     par_p = jp.params[1]
-    chl = [n for n in jp.body() if isinstance(n, ast.For) and isinstance(n.target, ast.Name) and src(n.iter) == par_p]
+    # the parser with the loader's other closure-level helpers inlined (all but extractOrigin, which the rule speaks about): the
+    # composition of the origin may live in a helper of its own
+    from ..engine import peval as _pe
+    local_helpers = {'local:' + f_.name: f_.node for f_ in model.all_funcs if f_.outer is load and f_.name != jp.name}
+    jp_flat = _pe.flatten(local_helpers, jp.node, depth=2, stop=('extractOrigin',), impure=True)
+    jp_body = [s_ for s_ in jp_flat.body if not (isinstance(s_, ast.Expr) and isinstance(s_.value, ast.Constant))]
+    chl = [n for n in jp_body if isinstance(n, ast.For) and isinstance(n.target, ast.Name) and src(n.iter) == par_p]
     if len(chl) != 1:
         raise AnalysisError('completeJointParse: loop over the joint\'s XML children not recognised')
     ch = chl[0].target.id
 
     def branch(tag):
-        for n in chl[0].body:
-            if isinstance(n, ast.If) and norm_text(n.test) in ("%s.tag=='%s'" % (ch, tag), "'%s'==%s.tag" % (tag, ch)):
-                return n
+        # `if CH.tag == tag:` at the top of the loop body or anywhere in an if / elif chain there
+        todo = list(chl[0].body)
+        while todo:
+            n = todo.pop(0)
+            if isinstance(n, ast.If):
+                if norm_text(n.test) in ("%s.tag=='%s'" % (ch, tag), "'%s'==%s.tag" % (tag, ch)):
+                    return n
+                todo = list(n.orelse) + todo
         return None
     ob = branch('origin')
     if ob is None:
@@ -497,9 +511,29 @@ def check(model, rep):
             '(tm([{p}[3], {p}[4], {p}[5]]) @ tm([{a}[0], {a}[1], {a}[2], 0, 0, 0]))[0:3]'.format(p=p0, a=p1)]
     ok = len(dr) == 1 and il_da.same(dr[0].value, want)
     rep.ob('R13.4', da, 'R(pose) applied to the file axis', ok, 'determineAxis returns %s' % (il_da.text(dr[0].value) if dr else '?'))
-    sc = [n for n in ast.walk(load.node) if isinstance(n, ast.Assign) and src(n.targets[0]).replace(' ', '') == 'screw_list[0:6,i]']
-    ok = len(sc) == 1 and src(sc[0].value).replace(' ', '') == 'np.hstack((joint_axes[0:3,i],np.cross(joint_homes[0:3,i],joint_axes[0:3,i])))'
-    rep.ob('R13.4', load, 'screw_i = [axis_i ; point_i x axis_i]', ok, 'screw construction is %s' % (src(sc[0].value) if sc else '?'))
+    # the loop that fills the screw table: per column i, rows 0:3 = axis_i and rows 3:6 = point_i x axis_i (one hstack store or two
+    # half-column stores; temporaries resolved)
+    halves, got_txt = {}, '?'
+    for lp_ in [n for n in load.body() if isinstance(n, ast.For) and isinstance(n.target, ast.Name)]:
+        env_s, stores_s = block_env(lp_.body)
+        st_ = [(norm_text(canon_names(t, {lp_.target.id: 'I'})), canon_names(v, {lp_.target.id: 'I'})) for (t, v, s_) in stores_s
+               if isinstance(t, ast.Subscript) and norm_text(t.value) == 'screw_list' and v is not None]
+        if not st_:
+            continue
+        got_txt = '; '.join('%s = %s' % (t, norm_text(v)[:90]) for t, v in st_)
+        for t, v in st_:
+            rows = t[len('screw_list['):-1]
+            if rows in ('0:6,I', ':,I') and isinstance(v, ast.Call) and norm_text(v.func) in ('np.hstack', 'np.concatenate') and v.args \
+                    and isinstance(v.args[0], (ast.Tuple, ast.List)) and len(v.args[0].elts) == 2:
+                halves['0:3'], halves['3:6'] = norm_text(v.args[0].elts[0]), norm_text(v.args[0].elts[1])
+            elif rows in ('0:3,I', ':3,I'):
+                halves['0:3'] = norm_text(v)
+            elif rows in ('3:6,I', '3:,I'):
+                halves['3:6'] = norm_text(v)
+            else:
+                halves['?'] = rows
+    ok = halves == {'0:3': 'joint_axes[0:3,I]', '3:6': 'np.cross(joint_homes[0:3,I],joint_axes[0:3,I])'}
+    rep.ob('R13.4', load, 'screw_i = [axis_i ; point_i x axis_i]', ok, 'screw construction is %s' % got_txt)
     arm_call = [c for c in ast.walk(load.node) if isinstance(c, ast.Call) and src(c.func) == 'Arm']
     ok = len(arm_call) == 1 and len(arm_call[0].args) == 5 and [il_load.text(x, canon=False, keep=KEEP) for x in arm_call[0].args[:2] + arm_call[0].args[3:]] == ['tm()', 'screw_list', 'joint_homes', 'joint_axes'] \
         and src(arm_call[0].args[2]).replace(' ', '') == pose['run']
